@@ -276,6 +276,9 @@ class ShardCMC(CMCReadWrite, ABC):
         if self.can_read_cmc:
             offsets = self.get_minishards_offsets()
             for offset, end in zip(offsets[::2], offsets[1::2]):
+                if offset == end:
+                    # empty minishard: nothing is stored in it
+                    continue
                 start = int(offset + self.header_byte_length)
                 length = int(end - offset)
                 minishard_raw_buffer = self.read_bytes(start, length)
@@ -321,6 +324,9 @@ class ReadableMiniShardCMC(CMCReadWrite):
 
         while idx_tally < cmc:
             chunk_idx += 1
+            if chunk_idx >= self.num_chunks:
+                raise ShardedIOError(f"Chunk {cmc} is not stored in this "
+                                     "minishard")
             idx_tally += self.minishard_index[chunk_idx]
         if idx_tally != cmc:
             raise ShardedIOError(f"Expecting sum of first {chunk_idx} to equal"
